@@ -87,6 +87,26 @@ def append_everywhere(lib, ptr, jv_before, what):
         raise Violation("%s: value changed by append+delete afterwards" % what, key="append-lost")
 
 
+def grow_both(lib, ptr, jv, rnd, prob, count):
+    """second-round edit of a utility's input through the core API: members whose keys sort first / in the middle / last are
+    appended to objects, an element to arrays; jv (in the tree's current member order) is updated alongside"""
+    if jv[0] == "O":
+        for key in (b"\x01early", b"b2", b"\x7fzz late"):
+            if rnd.random() < prob and all(k != key for k, _ in jv[1]):
+                v = float(rnd.randint(1, 3))
+                if not lib.cJSON_AddItemToObject(ptr, key, lib.cJSON_CreateNumber(v)):
+                    raise Violation("AddItemToObject fails on an input of an earlier generation call", key="append-lost")
+                jv[1].append([key, ["N", v]])
+                count[0] += 1
+    elif jv[0] == "A" and rnd.random() < prob / 2:
+        lib.cJSON_AddItemToArray(ptr, lib.cJSON_CreateNumber(9.0))
+        jv[1].append(["N", 9.0])
+        count[0] += 1
+    if jv[0] in "AO":
+        for kp, ch in zip(lib.children(ptr), jv[1]):
+            grow_both(lib, kp, ch if jv[0] == "A" else ch[1], rnd, prob, count)
+
+
 class C17(Prop):
     ID = "C17"
     RULE = ("pairs (from, to) of documents with distinct keys per object (Utils alphabet incl. '/', '~', '~0', '~1', '', digits) and numbers on "
